@@ -166,6 +166,7 @@ func snippet(fset *token.FileSet, src map[string][]byte, n ast.Node) string {
 	if len(s) > 70 {
 		s = s[:70] + "..."
 	}
+	s = strings.ReplaceAll(s, "\"", "'") // a double quote opens a string even inside a Coq comment
 	return strings.ReplaceAll(strings.ReplaceAll(s, "*)", "* )"), "(*", "( *")
 }
 
